@@ -131,7 +131,13 @@ static void run_scen(const scen_t *sc)
         if (sc->th[t][s].type == ST_SCHED) { resptr[t][s] = (parsec_task_t *)(intptr_t)ntasks; for (int i = 0; i < sc->th[t][s].n; i++) tasks[ntasks++].priority = sc->th[t][s].prio[i]; }
     }
     for (int i = 0; i < ntasks; i++) tasks[i].data[0].data_in = (parsec_data_copy_t *)(uintptr_t)(0x1000 + 64 * (i / 2));
-    /* watched: the module's shared objects and the tasks' links */
+    /* watched: the module's shared objects and the tasks' links.
+     * lhq's bounded buffers have 24..96 slots; only the first W are watched, W = tasks + re-schedules + 2: a pusher
+     * passes slot j only after seeing it occupied, at most `tasks` slots are occupied at a time and a task changes slot
+     * only when it is re-scheduled, so slots >= W stay NULL throughout (reads of them are independent of everything).
+     * When the pre-fill occupies the buffer, everything is watched. */
+    { int nres = 0; for (int t = 0; t < sc->nthreads; t++) for (int s = 0; s < MAXSTEP && sc->th[t][s].type != ST_END; s++) nres += sc->th[t][s].type == ST_RESCHED;
+      c08_hbb_prefix = (c08_mod == S_LHQ && sc->prefill_n >= 0) ? ntasks + nres + 2 : 0; }
     c08_regions(watch_cb);
     if (ntasks <= 36) for (int i = 0; i < ntasks; i++) watch_cb(&tasks[i].super.list_next, 2 * sizeof(void *), "task-links");
     else watch_cb(tasks, ntasks * sizeof(parsec_task_t), "tasks");
